@@ -152,6 +152,9 @@ def rules(ctx, db):
                 for bb, t in f.calls():
                     if call_matches(t, r"^core::mem::forget$"):
                         defuse = True
+                    # the defusing inlined into the hand-over: ManuallyDrop::new(<the guard>)
+                    if call_matches(t, r"ManuallyDrop::<T>::new$") and t.get("ga") and any(t["ga"][0] == g_ or t["ga"][0].endswith(g_.rsplit("::", 1)[-1]) for g_ in guards):
+                        defuse = True
                     for g in db.callee_fns(t, expand_traits=False):
                         if g.impl and g.impl.get("self_adt") in guards and g.argc >= 1 and g.locals[1][0] in guards and \
                                 calls(g, r"ManuallyDrop::<T>::new$"):
